@@ -1,6 +1,8 @@
 (* driver for C04: rb_common.ml plus the flush ops
      fl tl tc gl gc P   flush onto a tl x tc mock terminal (sentinel pattern, cursor (gl,gc), pen P)
                         observation  F{op log}{final grid}
+     flm tl tc gl gc P  the same on a terminal whose erasech(..., MAYBE) leaves the cursor where it
+                        was (as xterm's ECH does); the mock terminal moves it
      flx tl tc          flush through the xterm driver; observation X{payload code points}
      lct                the compiled linemask_to_char table; observation L{hex.hex...}
    After a flush the buffer is reset (a following D shows it). *)
@@ -40,14 +42,14 @@ let braces tok =   (* "K{a}{b}" -> [a; b] *)
 let pen_arg p = if p = "null" then pen_empty else parse_pen p
 
 let () =
-  ext_arity := (function "fl" -> Some 5 | "flx" -> Some 2 | "lct" -> Some 0 | _ -> None);
+  ext_arity := (function "fl" | "flm" -> Some 5 | "flx" -> Some 2 | "lct" -> Some 0 | _ -> None);
   ext_model := (fun bufs cur kw args ->
       match kw, args with
-      | "fl", [tl; tc; gl; gc; p] ->
+      | ("fl" | "flm"), [tl; tc; gl; gc; p] ->
         let tl = int_of_string tl and tc = int_of_string tc in
         let (ops, s') = unres (flush bufs.(cur)) in
         bufs.(cur) <- s';
-        let t0 = t_init (zi tl) (zi tc) (zi (int_of_string gl)) (zi (int_of_string gc)) (pen_arg p) in
+        let t0 = t_init (zi tl) (zi tc) (zi (int_of_string gl)) (zi (int_of_string gc)) (pen_arg p) (kw = "fl") in
         let log = String.concat "," (List.map (pr_termop tl tc) ops) in
         (match t_run t0 ops with
          | Ok t1 -> [Printf.sprintf "F{%s}{%s}" log (pr_grid t1.tg)]
@@ -69,11 +71,11 @@ let () =
         let ok =
           try
             match kw, args with
-            | "fl", [tl; tc; gl; gc; p] ->
+            | ("fl" | "flm"), [tl; tc; gl; gc; p] ->
               (match braces tok with
                | [log; grid] when tok.[0] = 'F' ->
                  let t0 = t_init (zi (int_of_string tl)) (zi (int_of_string tc)) (zi (int_of_string gl))
-                     (zi (int_of_string gc)) (pen_arg p) in
+                     (zi (int_of_string gc)) (pen_arg p) (kw = "fl") in
                  let ops = if log = "" then [] else List.map parse_termop (String.split_on_char ',' log) in
                  flush_checkb sts.(cur) t0 ops (parse_tgrid grid)
                | _ -> false)
